@@ -30,6 +30,7 @@ def main():
         os.environ['VERIF_SEED'] = str(rp.get('seed', 0))
         tier = rp.get('tier', tier)
         print('replaying %s (seed %s, tier %s): re-running the check that produced it' % (a.replay, rp.get('seed'), tier))
+    os.environ['VERIF_TIER'] = tier
     ctx = common.Ctx(prop, tier)
     try:
         mod = importlib.import_module('props.' + prop.lower())
